@@ -180,6 +180,44 @@ def replay_cooldown(c) -> List[Tuple[str, str]]:
     return fails
 
 
+def collision_case(c) -> List[Tuple[str, str]]:
+    """distinct targets whose 'kind:id:attr' spellings coincide are still distinct targets: each keeps its own
+    delta, in every listing order"""
+    import itertools
+    from clematis.engine.stages.t4 import t4_filter
+    from clematis.engine.types import ProposedDelta, Plan
+    targets, churn = c
+    vals = [0.125, 0.25, 0.0625, 0.03125][:len(targets)]
+    cfg = {"delta_norm_cap_l2": 100.0, "novelty_cap_per_node": 1.0, "churn_cap_edges": churn, "cooldowns": {}}
+    ctx = SimpleNamespace(config=SimpleNamespace(t4=cfg), turn_id=3)
+    fails, first = [], None
+    want = sorted(((k, i, a), v) for (k, i, a), v in zip(targets, vals))
+    want_kept = sorted(sorted(want, key=lambda t: -t[1])[:churn])
+    for perm in itertools.permutations(range(len(targets))):
+        deltas = [ProposedDelta(targets[j][0], targets[j][1], targets[j][2], vals[j], op_idx=None, idx=n) for n, j in enumerate(perm)]
+        res = t4_filter(ctx, {}, None, None, Plan(version="t3-plan-v1", ops=[], deltas=deltas), None)
+        got = [((d.target_kind, d.target_id, d.attr), d.delta) for d in res.approved_deltas]
+        if sorted(got) != want_kept:
+            fails.append(("OnlyProposedTargets", f"targets {targets} (distinct, one delta each, caps not binding except churn={churn}) listing {perm}: "
+                                                 f"approved {got}, expected each target with its own delta {want_kept}"))
+            break
+        if first is None:
+            first = got
+        elif got != first:
+            fails.append(("OrderIndependent", f"targets {targets} churn={churn}: listing {perm} gives {got}, first listing {first}"))
+            break
+    return fails
+
+
+COLLISIONS = [
+    [("node", "a:b", "c"), ("node", "a", "b:c")],
+    [("node", "n:apple", "weight"), ("node", "n", "apple:weight")],
+    [("edge", "x:y", "w:z"), ("edge", "x", "y:w:z"), ("edge", "x:y:w", "z")],
+    [("node", "a:b", "c"), ("node", "a", "b:c"), ("node", "a", "c"), ("node", "a:b", "b:c")],
+    [("node", "", ":"), ("node", ":", "")],
+]
+
+
 def random_case(args) -> List[Tuple[str, str]]:
     from clematis.engine.stages.t4 import t4_filter
     from clematis.engine.types import ProposedDelta, Plan, EditGraphOp, SetMetaFilterOp
@@ -193,6 +231,12 @@ def random_case(args) -> List[Tuple[str, str]]:
         x = r.choice(mags) if r.random() < 0.5 else r.uniform(-2, 2)
         deltas.append(ProposedDelta(r.choice(["node", "edge"]), r.choice(ids), "weight", x,
                                     op_idx=r.choice([None, 0, 1, 2]), idx=j))
+    if n and r.random() < 0.4:
+        # duplicates of one target whose sum cancels catastrophically unless it is formed exactly
+        big = r.choice([1e16, 1e300, 2.0 ** 53, 1e8])
+        tid, small = r.choice(ids), r.choice([1.0, 0.25, 1e-3, 0.1])
+        for v in (big, small, -big, 0.1, 0.2, -0.3):
+            deltas.insert(r.randrange(0, len(deltas) + 1), ProposedDelta("node", tid, "weight", v, op_idx=r.choice([None, 0, 1, 2]), idx=len(deltas)))
     ops = [EditGraphOp(kind="EditGraph", edits=[], cap=4), SetMetaFilterOp(kind="SetMetaFilter", params={}),
            EditGraphOp(kind="EditGraph", edits=[], cap=4)]
     plan = Plan(version="t3-plan-v1", ops=ops, deltas=deltas)
@@ -217,17 +261,20 @@ def random_case(args) -> List[Tuple[str, str]]:
         if cd and op.kind in last and turn - last[op.kind] < cd:
             blocked.add(k)
     envelope(res, ctx, plan, blocked, fails, f"random case {i}")
-    # listing-order independence on a shuffled listing (only bit-exact when sums are exact: compare
-    # the discrete projection, magnitudes to 1e-9)
-    d2 = list(deltas)
-    r.shuffle(d2)
-    res2 = t4_filter(ctx, state, None, None, Plan(version="t3-plan-v1", ops=ops, deltas=d2), None)
-    keys = [_ckey(d) for d in deltas]
-    if len(set(keys)) == len(keys):      # no duplicate targets: no float summation order involved
-        a = [(_ckey(d), d.delta) for d in res.approved_deltas]
+    # listing-order independence on shuffled listings, duplicates of a target included: the merged value of a
+    # target is the sum of a multiset and may not depend on the order in which it is accumulated
+    a = [(_ckey(d), d.delta) for d in res.approved_deltas]
+    for _ in range(3):
+        d2 = list(deltas)
+        r.shuffle(d2)
+        res2 = t4_filter(ctx, state, None, None, Plan(version="t3-plan-v1", ops=ops, deltas=d2), None)
         b = [(_ckey(d), d.delta) for d in res2.approved_deltas]
         if a != b or res.reasons != res2.reasons:
-            fails.append(("OrderIndependent", f"random case {i}: shuffled listing changes the result"))
+            dup = len({_ckey(d) for d in deltas}) != len(deltas)
+            k = next((j for j, (x, y) in enumerate(zip(a, b)) if x != y), min(len(a), len(b)))
+            fails.append(("OrderIndependent", f"random case {i}: a shuffled listing changes the result ({'duplicate targets' if dup else 'no duplicates'}): "
+                                              f"{a[k] if k < len(a) else None} vs {b[k] if k < len(b) else None}"))
+            break
     return fails
 
 
@@ -267,6 +314,15 @@ def check(run) -> None:
             run.ok("Cooldown.conforms")
         for clause, msg in fails:
             run.fail(clause, {"stage": "cooldown-arithmetic"}, {"turn_last_cd": c}, msg, replay={"cooldown": list(c)})
+    # spelling collisions of the canonical key
+    ccases = [(t, churn) for t in COLLISIONS for churn in (64, 1, len(t) - 1)]
+    for c, fails in zip(ccases, pmap(collision_case, ccases)):
+        run.traces += 1
+        run.case(("collision", json.dumps(c)))
+        if not fails:
+            run.ok("Collision.distinct_targets_kept_apart")
+        for clause, msg in fails:
+            run.fail(clause, {"stage": clause, "direction": "key-collision"}, {"targets": c[0], "churn": c[1]}, msg, replay={"collision": [c[0], c[1]]})
     # random large plans
     n = 400 if q else 20000
     args = [(run.seed, i) for i in range(n)]
@@ -283,7 +339,9 @@ def check(run) -> None:
 
 def replay(rep) -> int:
     r = rep["replay"]
-    if "case" in r:
+    if "collision" in r:
+        fails = collision_case(([tuple(t) for t in r["collision"][0]], r["collision"][1]))
+    elif "case" in r:
         fails = replay_case(r["case"])
     elif "cooldown" in r:
         c = r["cooldown"]
